@@ -230,22 +230,71 @@ type kase struct {
 }
 
 type event struct {
-	Op    string                         `json:"op"`
-	H     int                            `json:"h"`
-	Name  string                         `json:"name"`
-	Names []string                       `json:"names"`
-	Path  []string                       `json:"path"`
-	Pid   string                         `json:"pid"`
-	Kind  string                         `json:"kind"`
-	Val   string                         `json:"val"`  // decimal
-	G     int                            `json:"g"`    // race: creator
-	Err   bool                           `json:"err"`  // the call returned an error
-	Errs  string                         `json:"errs"` // its text
-	N     int                            `json:"n"`    // index of the handle the call returned (0 = none)
-	Ex    bool                           `json:"ex"`   // its Existing()
-	Rb    []string                       `json:"rb"`   // set: contents of the limit file(s) read back from cgroupfs
-	Dirs  map[string][][]string          `json:"dirs"` // group directories after the call
-	Mem   map[string]map[string][]string `json:"mem"`  // hierarchy -> helper -> group after the call
+	Op      string                         `json:"op"`
+	H       int                            `json:"h"`
+	Name    string                         `json:"name"`
+	Names   []string                       `json:"names"`
+	Path    []string                       `json:"path"`
+	Pid     string                         `json:"pid"`
+	Kind    string                         `json:"kind"`
+	Val     string                         `json:"val"`     // decimal
+	G       int                            `json:"g"`       // race: creator
+	Err     bool                           `json:"err"`     // the call returned an error
+	Errs    string                         `json:"errs"`    // its text
+	N       int                            `json:"n"`       // index of the handle the call returned (0 = none)
+	Ex      bool                           `json:"ex"`      // its Existing()
+	Rb      []string                       `json:"rb"`      // set: contents of the limit file(s) read back from cgroupfs
+	Lims    []limit                        `json:"lims"`    // every limit file of every group of the case, read back after the call
+	Allowed map[string]string              `json:"allowed"` // helper -> Cpus_allowed_list (cases with the cpuset controller)
+	Dirs    map[string][][]string          `json:"dirs"`    // group directories after the call
+	Mem     map[string]map[string][]string `json:"mem"`     // hierarchy -> helper -> group after the call
+}
+
+// limit is the content of one limit file of one group
+type limit struct {
+	Path []string `json:"path"`
+	Kind string   `json:"kind"` // mem | cpuq | cpup | pids | cpus
+	Val  string   `json:"val"`
+}
+
+var limitFiles = map[string][][2]string{
+	"memory": {{"mem", "memory.limit_in_bytes"}},
+	"cpu":    {{"cpuq", "cpu.cfs_quota_us"}, {"cpup", "cpu.cfs_period_us"}},
+	"pids":   {{"pids", "pids.max"}},
+	"cpuset": {{"cpus", "cpuset.cpus"}},
+}
+
+// cpu lists handed to SetCPUSet (strict subsets of this host's 0-15), by the number in the case
+var cpuLists = map[int]string{1: "0", 2: "0-1", 3: "2-3"}
+
+// limits reads every limit file of every group directory below the case's base (kernel truth)
+func (l *layout) limits(dirs map[string][][]string) []limit {
+	out := []limit{}
+	if l.ver != 1 {
+		return out
+	}
+	for _, c := range l.ctls {
+		for _, d := range dirs[c] {
+			for _, f := range limitFiles[c] {
+				p := filepath.Join(append([]string{l.root(c)}, d...)...)
+				out = append(out, limit{Path: append([]string{}, d...), Kind: f[0], Val: readTrim(filepath.Join(p, f[1]))})
+			}
+		}
+	}
+	return out
+}
+
+func cpusAllowed(pid int) string {
+	b, err := os.ReadFile(fmt.Sprintf("/proc/%d/status", pid))
+	if err != nil {
+		return "?"
+	}
+	for _, line := range strings.Split(string(b), "\n") {
+		if v, ok := strings.CutPrefix(line, "Cpus_allowed_list:"); ok {
+			return strings.TrimSpace(v)
+		}
+	}
+	return "?"
 }
 
 type trace struct {
@@ -332,6 +381,11 @@ func runCase(c kase, nonce string) (tr *trace, err error) {
 	handles := []cgroup.Cgroup{nil} // 1-based like the specification; index 1 = base handle
 	snap := func(ev *event) {
 		ev.Dirs = l.dirs()
+		ev.Lims = l.limits(ev.Dirs)
+		ev.Allowed = map[string]string{}
+		for n, h := range helpers {
+			ev.Allowed[n] = cpusAllowed(h.cmd.Process.Pid)
+		}
 		ev.Mem = map[string]map[string][]string{}
 		for _, c := range l.ctls {
 			ev.Mem[c] = map[string][]string{}
@@ -415,6 +469,10 @@ func runCase(c kase, nonce string) (tr *trace, err error) {
 			case "cpu":
 				err = h.SetCPUBandwidth(uint64(o.Val), 100000)
 				files = []string{"cpu/cpu.cfs_quota_us", "cpu/cpu.cfs_period_us"}
+			case "cpus":
+				ev.Val = cpuLists[o.Val]
+				err = h.SetCPUSet([]byte(ev.Val))
+				files = []string{"cpuset/cpuset.cpus"}
 			}
 			ev.Err, ev.Errs = err != nil, errText(err)
 			rel := handlePath(l, h)
